@@ -1348,6 +1348,7 @@ impl Scenario for C06 {
 
     fn assumptions(&self) -> Vec<&'static str> {
         vec![
+            "every PDU of a response a step completes on carries the negotiated version (checked against the non-conforming LegacyMixed and LegacyFlipFlop peers): this is C07's clause 'a header that announces a wrong version ends in an error' seen at the client; C06's own statement is about data, state and timing",
             "bytes inside one connection are never reordered, duplicated or corrupted (TCP); connections may stall, end or fail at any byte",
             "a failed step asserts nothing except that the target was not modified; the router then reconnects with Client::state() and its retained data (documented API use), so a state that ran ahead of the data is caught at the next completed step",
             "duplicate announcements / unknown withdrawals are probes, not violations: the statement only fixes the resulting set",
